@@ -119,3 +119,164 @@ class C07OrderKernel:
 
 
 HARNESSES["c07order"] = C07OrderKernel
+
+
+def _bag(fails):
+    """sorted multiset of (line, col, rule id, extra)"""
+    return sorted((f.line_number, f.column_number, f.rule_id, f.extra_error_information or "") for f in fails)
+
+
+class C12Harness(DocMixin):
+    """Rule independence.  params: skeleton, holes, minus (bool: also default-minus-each).
+    One path scans the same symbolic document with: all rules, the default set, every rule
+    alone (and default minus every default rule), each through its own real PluginManager +
+    FileScanHelper built once per worker."""
+
+    _scanners = {}
+
+    def __init__(self, params):
+        self._init_doc(params)
+        app.the_vfs()
+        self.table = env.rule_table()
+        self.ids = [r[0] for r in self.table if r[0] != "md999"]
+        self.default_ids = [r[0] for r in self.table if r[2] and r[0] != "md999"]
+        self.minus = bool(params.get("minus"))
+        with NoTracing():
+            self._get("all")
+            self._get("default")
+            for rid in self.ids:
+                self._get("only:" + rid)
+            if self.minus:
+                for rid in self.default_ids:
+                    self._get("minus:" + rid)
+
+    def _get(self, sel):
+        sc = C12Harness._scanners.get(sel)
+        if sc is None:
+            if sel == "all":
+                sc = env.Scanner(enable=",".join(self.ids))
+            elif sel == "default":
+                sc = env.Scanner()
+            elif sel.startswith("only:"):
+                sc = env.Scanner(*env.only_rule(sel[5:]))
+            else:
+                sc = env.Scanner(disable=sel[6:])
+            C12Harness._scanners[sel] = sc
+        return sc
+
+    def scan(self, sel, d):
+        V = app.the_vfs()
+        V.reset()
+        V.put(F, d)
+        sc = self._get(sel)
+        try:
+            sc.run([F])
+        except SystemExit:
+            return None
+        if sc.errors:
+            return None
+        return _bag(sc.pres.fails)
+
+    def body(self, v):
+        d = self.doc(v)
+        if d is None:
+            return SKIP
+        res = {"all": self.scan("all", d), "default": self.scan("default", d)}
+        for rid in self.ids:
+            res["only:" + rid] = self.scan("only:" + rid, d)
+        if self.minus:
+            for rid in self.default_ids:
+                res["minus:" + rid] = self.scan("minus:" + rid, d)
+        return (d, res)
+
+    def judge(self, obs, v):
+        if isinstance(obs, Raised):
+            return [{"kind": "harness-exception", "detail": obs.describe()}]
+        d, res = obs
+        return scan_props.c12(res, self.ids, self.default_ids)
+
+    def digest(self, obs, rv):
+        if isinstance(obs, Raised):
+            return "raised:" + obs.root_type + "@" + obs.site
+        d, res = obs
+        with NoTracing():
+            a = res.get("all")
+            return "err" if a is None else ",".join(sorted({x[2] for x in a}))
+
+
+HARNESSES["c12"] = C12Harness
+
+
+import os as _os
+import sys as _sys
+
+_PLUG = _os.path.join(env.VERIF, "plugins")
+RECORDER = _os.path.join(_PLUG, "recorder_rule.py")
+
+
+def recorder():
+    if _PLUG not in _sys.path:
+        _sys.path.insert(0, _PLUG)
+    import recorder_rule
+
+    return recorder_rule.RecorderRule
+
+
+_PTOK = None
+
+
+def direct_tokens(d):
+    """token stream obtained directly from the parser, pragma token removed"""
+    global _PTOK
+    if _PTOK is None:
+        with NoTracing():
+            _PTOK = env.make_tokenizer()
+    try:
+        toks = _PTOK.transform(d, show_debug=False, do_add_end_of_stream_token=True)
+    except Exception:  # noqa
+        return None
+    if toks and toks[-1].is_pragma:
+        toks = toks[:-1]
+    return toks
+
+
+class C14Harness(DocMixin):
+    """params: skeleton, holes, second (optional second file text), disabled (bool)"""
+
+    def __init__(self, params):
+        self._init_doc(params)
+        self.second = params.get("second")
+        self.disabled = bool(params.get("disabled"))
+        self.argv = ["--add-plugin", RECORDER] + (["-d", "vpr001"] if self.disabled else []) + ["scan", F] + (["/vfs/g.md"] if self.second is not None else [])
+        app.the_vfs()
+        self.R = recorder()
+
+    def body(self, v):
+        d = self.doc(v)
+        if d is None:
+            return SKIP
+        self.R.reset()
+        files = [(F, d)] + ([("/vfs/g.md", self.second)] if self.second is not None else [])
+        o = app.run_main(self.argv, files)
+        log = list(self.R.LOG)
+        docs_in_order = [d] + ([self.second] if self.second is not None else [])
+        toks = [direct_tokens(x) for x in docs_in_order]
+        return (o, log, docs_in_order, toks)
+
+    def judge(self, obs, v):
+        if isinstance(obs, Raised):
+            return [{"kind": "harness-exception", "detail": obs.describe()}]
+        o, log, ds, toks = obs
+        if scan_props.mentions(o.err, "Error"):
+            return []
+        return scan_props.c14(log, ds, toks, enabled=not self.disabled)
+
+    def digest(self, obs, rv):
+        if isinstance(obs, Raised):
+            return "raised:" + obs.root_type + "@" + obs.site
+        o, log, ds, toks = obs
+        with NoTracing():
+            return "".join(e[0][0] for e in log)[:120]
+
+
+HARNESSES["c14"] = C14Harness
